@@ -204,7 +204,7 @@ func genC17URL(t *rapid.T, long bool) string {
 	case 1, 2:
 		sb.WriteString("/" + pick(t, "path", []string{"", "a/b.js", "a//b", "x:y", "p?q=1&r=http://other.example/", "a%20b", "~u/;p=1", "index.html", "a/@b", "A/B", "adZone.js", "Zz", "\u212aelvin", "caf\u00c9"}))
 	case 3:
-		sb.WriteString("?" + pick(t, "query", []string{"", "q=1", "u=http://other.example//x", "a:b", "x/y?z"}))
+		sb.WriteString("?" + pick(t, "query", []string{"", "q=1", "u=http://other.example//x", "a:b", "x/y?z", "email=john@tracker.com", "@", "x=@y/z", "u=me:pw@host.example"}))
 	}
 	if sb.Len() > 0 && strings.ContainsAny(sb.String()[strings.Index(sb.String(), "://")+3:], "/?") {
 		if long {
